@@ -158,6 +158,9 @@ type Config struct {
 	// PointReads asks a schedx harness to wrap the file system so that file reads are
 	// scheduling points (interpreted by the harness, not by cz).
 	PointReads bool
+	// BusyIsLegal: a channel delete refused because a writer or iterator is open on the
+	// channel is an expected answer (concurrent scenarios), not a broken script.
+	BusyIsLegal bool
 }
 
 type dom struct{ s, e telem.TimeStamp } // half-open range a session committed for a channel
@@ -485,6 +488,11 @@ func (w *World) Apply(op string) (string, error) {
 	case "rmch":
 		k := cesium.ChannelKey(atoi(f[1]))
 		if err := w.DB.DeleteChannel(k); err != nil {
+			if w.Cfg.BusyIsLegal && strings.Contains(err.Error(), "unclosed writers/iterators") {
+				// another thread's writer is open on the channel: a legal refusal that
+				// says nothing about the steps of that thread
+				return "refused:busy", nil
+			}
 			w.Poisoned = "delete channel refused: " + err.Error()
 			return "refused:" + short(err), nil
 		}
